@@ -15,11 +15,14 @@ CACHE_FIELDS = {'_cache', '_eval_points', '_bounding_box', '_control_points2D', 
                 '_tsl_component', '_vis_component'}
 
 
-class Mutation(object):
-    __slots__ = ('root', 'node', 'how', 'func')
+DEEP = 99     # a mutating method / property setter of an object may write at any depth below it
 
-    def __init__(self, root, node, how, func):
-        self.root, self.node, self.how, self.func = root, node, how, func
+
+class Mutation(object):
+    __slots__ = ('root', 'node', 'how', 'func', 'depth')
+
+    def __init__(self, root, node, how, func, depth=1):
+        self.root, self.node, self.how, self.func, self.depth = root, node, how, func, depth
 
     def __repr__(self):
         return '<Mutation %s by %s: %s>' % (self.root, self.how, norm(self.node)[:80])
@@ -308,7 +311,7 @@ class Walker(object):
                     env[f.value.id] = set(env.get(f.value.id, set())) | add
                 return set()
             if name in self.pur.mutating_methods() and recv_vals and not self.m.resolve_callable(self.fi.mod, f):
-                self.mutate(recv_vals, depth + 1, call, 'method .%s() writes defining state of its receiver' % name)
+                self.mutate(recv_vals, DEEP, call, 'method .%s() writes defining state of its receiver' % name)
             if name == 'get' and self.is_kwargs(f.value):
                 return set()
             if name in ('copy',):
@@ -346,7 +349,7 @@ class Walker(object):
                     elif pn in kwvals:
                         vals = kwvals[pn]
                     if vals:
-                        self.mutate(vals, 1, call, 'callee %s mutates its parameter `%s` (%s)' % (fi.key, pn, mu.how))
+                        self.mutate(vals, mu.depth, call, 'callee %s mutates its parameter `%s` (%s)' % (fi.key, pn, mu.how.split(' (callee')[0][:80]))
                 elif mu.root.startswith(('global:', 'memo:')):
                     if not any(x.root == mu.root and x.node is call for x in self.s.mutations):
                         self.s.mutations.append(Mutation(mu.root, call, 'via callee %s: %s' % (fi.key, mu.how.split(' via callee')[0]), self.fi))
@@ -386,7 +389,7 @@ class Walker(object):
             if r.startswith('__'):
                 continue
             if depth > l and not any(mu.root == r and mu.node is node for mu in self.s.mutations):
-                self.s.mutations.append(Mutation(r, node, how, self.fi))
+                self.s.mutations.append(Mutation(r, node, how, self.fi, DEEP if depth >= DEEP else max(1, depth - l)))
 
     # ------------------------------------------------------------------ statements
     def truth(self, t):
@@ -428,7 +431,9 @@ class Walker(object):
                 self.store(x, deref(vals), env, node)
         elif isinstance(t, (ast.Subscript, ast.Attribute)):
             base, d = self.chain(t.value, env)
-            self.mutate(base, d + 1, node, 'store to `%s`' % norm(t))
+            deep = isinstance(t, ast.Attribute) and ('=' + t.attr) in self.pur.mutating_methods() and not (
+                isinstance(t.value, ast.Name) and t.value.id == 'self')
+            self.mutate(base, DEEP if deep else d + 1, node, 'store to `%s`' % norm(t))
             # weak update: the container now holds the stored value
             b = t.value
             while isinstance(b, (ast.Subscript, ast.Attribute)):
@@ -469,6 +474,11 @@ class Walker(object):
                     self.const_env[nm] = val.value
                 if isinstance(val, ast.Tuple) and all(isinstance(x, ast.Name) for x in val.elts):
                     self.local_tuples[nm] = [x.id for x in val.elts]
+                if isinstance(val, ast.Call) and isinstance(val.func, ast.Attribute) and val.func.attr == 'get' and len(val.args) == 2 \
+                        and isinstance(val.args[1], (ast.Name, ast.Attribute)):
+                    tgt = self.m.resolve_callable(self.fi.mod, val.args[1])
+                    if tgt is not None:
+                        self.local_funcs[nm] = tgt
             for t in st.targets:
                 self.store(t, v, env, st)
             return True
